@@ -943,6 +943,17 @@ def load_reference():
     return R
 
 
+def interface_of(fn):
+    """what the rules read from a function besides its body: its signature (parameter and result types, so also a type-state
+    parameter in the result), its where-bounds, constness and visibility - lifetimes' names aside.  A change of any of these is
+    not a respelling of the body and is judged by the rules on the current function."""
+    j = fn.j
+    lt = re.compile(r"'[A-Za-z_][A-Za-z0-9_]*")
+    sig = lt.sub("'_", j.get("sig") or "")
+    preds = sorted(lt.sub("'_", p.get("s", "")) for p in (j.get("preds") or []))
+    return (sig, tuple(preds), bool(j.get("pub")), bool(j.get("is_const")), tuple(j.get("generics") or ()))
+
+
 def apply_reference(F):
     """replace every function family whose root differs textually from the reference but has the same canonical
     summary by the reference family; returns the list of (fn id, 'equivalent'|'different')"""
@@ -994,7 +1005,7 @@ def apply_reference(F):
             if f.id in equivalent:
                 continue
             try:
-                same = sc.of(f) == sr.of(g) and isinstance(sc.of(f)[1], frozenset)
+                same = sc.of(f) == sr.of(g) and isinstance(sc.of(f)[1], frozenset) and interface_of(f) == interface_of(g)
             except Exception:
                 same = False
             if same:
